@@ -253,7 +253,7 @@ def _translate_metadata_to_ds9(region, shape):
         meta['font'] = f'"{fontname} {fontsize} {fontweight} {fontstyle}"'
 
     linestyle = meta.pop('linestyle', None)
-    if linestyle is not None:
+    if linestyle is not None and linestyle not in ('solid', '-'):
         meta['dash'] = 1
     # if linestyle in ('dashed', '--'):
     if isinstance(linestyle, tuple):
